@@ -12,7 +12,8 @@ What is proved here is the lock discipline, not the scheduler (DESIGN.md 7.19):
 * `facts_race_free`, `guarded_race_free`: for every fact table that satisfies the decidable
   predicates `ReaderDiscipline`, `GlobalsInitOnly` (resp. `GuardedLocations`), the abstract
   program the table describes is disciplined, hence race free;
-* `reader_discipline_holds`, `globals_init_only_holds`, `guarded_locations_hold`: the predicates
+* `reader_discipline_holds`, `globals_init_only_holds`, `guarded_locations_hold`,
+  `no_global_escapes_holds` (the last one checks an assumption of the model): the predicates
   evaluate to `true`, in the kernel, on the table regenerated from the current Go source
   (`Gen/Access.lean`, rewritten by `harness/cmd/extract-access` on every run of the check);
 * `c19_race_free`, `c19_guarded_race_free`: the two combined.
@@ -61,9 +62,9 @@ mutex 0 (shared) and writes location 5 under mutex 0 (exclusive); function 1 rea
 under mutex 0 (shared); function 2 is the package initialiser and writes the package-level
 variable 9. -/
 def demo : Facts where
-  fns := [⟨[], [⟨5, [(0, true)], 0⟩], [⟨1, [], 0⟩], true⟩,
-          ⟨[⟨5, [(0, false)], 0⟩, ⟨9, [], 0⟩], [], [], false⟩,
-          ⟨[], [⟨9, [], 0⟩], [], false⟩]
+  fns := [⟨[], [⟨5, [(0, true)], 0⟩], [⟨1, [], 0⟩], [], true⟩,
+          ⟨[⟨5, [(0, false)], 0⟩, ⟨9, [], 0⟩], [], [], [], false⟩,
+          ⟨[], [⟨9, [], 0⟩], [], [⟨9, [], 0⟩], false⟩]
   readerRoots := [0]
   readerReach := [0, 1]
   initRoots := [2]
@@ -73,10 +74,16 @@ def demo : Facts where
   goStmts := 0
 
 /-- the same with the Lock of function 0 dropped -/
-def demoBad : Facts := { demo with fns := [⟨[], [⟨5, [], 0⟩], [⟨1, [], 0⟩], true⟩] ++ demo.fns.drop 1 }
+def demoBad : Facts := { demo with fns := [⟨[], [⟨5, [], 0⟩], [⟨1, [], 0⟩], [], true⟩] ++ demo.fns.drop 1 }
 
-example : ReaderDiscipline demo = true ∧ GlobalsInitOnly demo = true ∧ GuardedLocations demo = true := by decide
+/-- function 1 hands out the object of the package-level variable 9 (as `newListAttr` would) -/
+def demoLeak : Facts :=
+  { demo with fns := demo.fns.take 1 ++ [⟨[⟨5, [(0, false)], 0⟩, ⟨9, [], 0⟩], [], [], [⟨9, [], 0⟩], false⟩] ++ demo.fns.drop 2 }
+
+example : ReaderDiscipline demo = true ∧ GlobalsInitOnly demo = true ∧ GuardedLocations demo = true ∧
+    NoGlobalEscapes demo = true := by decide
 example : ReaderDiscipline demoBad = false ∧ GuardedLocations demoBad = false := by decide
+example : NoGlobalEscapes demoLeak = false ∧ GlobalsInitOnly demoLeak = true := by decide
 
 /-- one call of function 0: write under Lock, then the callee's read under RLock -/
 def demoThread : List AEv :=
@@ -102,6 +109,12 @@ theorem reader_discipline_holds : ReaderDiscipline Gen.Access.facts = true := by
 theorem globals_init_only_holds : GlobalsInitOnly Gen.Access.facts = true := by decide +kernel
 
 theorem guarded_locations_hold : GuardedLocations Gen.Access.facts = true := by decide +kernel
+
+/-- Supports an assumption rather than a theorem: the instance-private reading of non-global
+locations (`locOf`) presupposes that objects of package-level variables do not become reachable
+from a module set; outside package initialisation no reference to one leaves a function, except
+for the variables explained one by one in allow.json (`Gen.Access.globalRefOkNames`). -/
+theorem no_global_escapes_holds : NoGlobalEscapes Gen.Access.facts = true := by decide +kernel
 
 /-- C19 for the abstract program extracted from the current source: N goroutines, each either a
 reader of the shared processed set or a pipeline on its own set, in any interleaving, never reach
